@@ -153,6 +153,19 @@ Theorem C10_all_extractors_must_succeed : forall (A B C : Type)
   extract3 a b c = Ok (x, y, z) <-> a = Ok x /\ b = Ok y /\ c = Ok z.
 Proof. exact (fun A B C => @extract3_ok_iff A B C). Qed.
 
+(* with faults at several stages at once, the first failing extractor in
+   argument order decides the response; later stages are never consulted *)
+Theorem C10_first_failing_extractor_decides : forall (A B C : Type)
+  (a : res xerr A) (b : res xerr B) (c : res xerr C) e,
+  extract3 a b c = Err e <->
+  a = Err e \/ (exists x, a = Ok x /\ b = Err e) \/ (exists x y, a = Ok x /\ b = Ok y /\ c = Err e).
+Proof. exact (fun A B C => @extract3_err_iff A B C). Qed.
+
+Theorem C10_handler_entered_iff_all_stages_ok : forall (A B C : Type)
+  (a : res xerr A) (b : res xerr B) (c : res xerr C),
+  entered (handle (extract3 a b c)) = is_ok a && is_ok b && is_ok c.
+Proof. exact (fun A B C => @handler_entered_iff_all_ok A B C). Qed.
+
 (* ---- clause 3: never a panic ---- *)
 
 (* the assert! of http_extract_path_params never fires *)
@@ -228,6 +241,8 @@ Print Assumptions C10_malformed_json_refused.
 Print Assumptions C10_no_handler_on_extract_error.
 Print Assumptions C10_handler_entered_iff.
 Print Assumptions C10_all_extractors_must_succeed.
+Print Assumptions C10_first_failing_extractor_decides.
+Print Assumptions C10_handler_entered_iff_all_stages_ok.
 Print Assumptions C10_assert_never_fires.
 Print Assumptions C10_path_never_panics.
 Print Assumptions C10_registered_path_has_no_missing_field.
